@@ -181,7 +181,8 @@ inductive POp where
 def pstep (p : Proc) (now : Nat) : POp → Res Proc
   | .add i s e et dis => addInfo p i s e et dis now
   | .upd i s e et dis => updateInfo p i s e et (some dis) now
-  | .lose i => if runningOn p i then invalidateIdentifier p i now else .ok p
+  -- `Context.invalidate_failed`: every process of the lost instance, running there (first loop) or only STOPPING there (second loop)
+  | .lose i => invalidateIdentifier p i now
   | .remove i => if (p.infos.get? i).isSome then .ok { p with infos := p.infos.del i } else .err "KeyError"
   | .force target s et => .ok (forceState p target s et).1
   | .disable i dis => match p.infos.get? i with
